@@ -467,3 +467,20 @@ Proof.
   intros Hg Hd Hc Hk Hp. unfold task_step, gen_find_round. rewrite Hg, Hd, Hc, Hk.
   destruct (tk_pc tk) as [|p] eqn:E; [exfalso; apply Hp; reflexivity|]. destruct p; cbn [N.eqb Pos.eqb]; destruct (find_entries w); reflexivity.
 Qed.
+
+(* ---- ServiceInstance._offer_task (C10) ---- *)
+Theorem offer_next_is_the_translated_source t i inst w :
+  offer_next t i inst w
+  = gen_offer_next i (t_rep_max (cfg w)) (t_rep_base (cfg w)) (t_cyclic (cfg w))
+      (fun d => task_sleep t (TOffer inst) d 2 i w) (finish_task t w) (fun d => task_sleep t (TOffer inst) d 3 0 w).
+Proof. unfold offer_next, gen_offer_next, pow2. rewrite N.shiftl_1_l. reflexivity. Qed.
+(* cancelled while asleep between repetitions: the handler withdraws the permission to answer, finally sends the StopOffer when cyclic *)
+Theorem offer_cancelled_is_the_translated_source t w tk inst :
+  get_task t w = Some tk -> tk_done tk = false -> tk_must_cancel tk = true -> tk_kind tk = TOffer inst -> tk_pc tk = 2 ->
+  task_step t w
+  = let w1 := set_can_answer inst false w in
+    finish_task t (if gen_offer_finally_sends_stop (t_cyclic (cfg w1)) then inst_send_offer inst None true w1 else w1).
+Proof.
+  intros Hg Hd Hc Hk Hp. unfold task_step, gen_offer_finally_sends_stop. rewrite Hg, Hd, Hc, Hk, Hp. cbv zeta.
+  destruct (t_cyclic (cfg (set_can_answer inst false w)) =? 0); reflexivity.
+Qed.
